@@ -72,8 +72,10 @@ Clause(r, c) ==
                          \/ (r.status # "ok" /\ r.twin.unchanged /\ r.twin.first_unchanged)
     [] OTHER -> FALSE
 
+\* a create that refuses a payload it may refuse (file names that are not UTF-8) writes no metafile: nothing to judge
+Refused(r) == r.op = "open" /\ r.refusable /\ r.status # "ok"
 Report(r) == \A k \in DOMAIN r.clauses :
-                IF (r.status = "ok" \/ r.clauses[k] = "C07.twin") /\ Clause(r, r.clauses[k]) THEN TRUE
+                IF Refused(r) \/ ((r.status = "ok" \/ r.clauses[k] = "C07.twin") /\ Clause(r, r.clauses[k])) THEN TRUE
                 ELSE PrintT(<<"FAIL", r.id, r.clauses[k]>>)
 
 NoModel == [ok |-> FALSE, top |-> <<>>, info |-> <<>>, ih1 |-> "", ih2 |-> "", vals |-> <<>>]
